@@ -30,7 +30,7 @@ def sh(cmd, cwd=None, timeout=3600, env=None):
 
 
 def main():
-    prop, src, name = sys.argv[1], sys.argv[2], sys.argv[3]
+    prop, src, name = sys.argv[1], os.path.abspath(sys.argv[2]), sys.argv[3]
     extra = sys.argv[4:]
     wt = f'/tmp/ev_{name}'
     sh(f'git -C /repo worktree remove --force {wt}')
@@ -71,8 +71,9 @@ def main():
         sh(f'rm -rf {wt}')
     dst = f'{VERIF}/seeded/{name}'
     os.makedirs(dst, exist_ok=True)
-    shutil.copy(f'{src}/patch.diff', f'{dst}/patch.diff')
-    shutil.copy(f'{src}/demo.rs', f'{dst}/demo.rs')
+    if os.path.abspath(src) != os.path.abspath(dst):
+        shutil.copy(f'{src}/patch.diff', f'{dst}/patch.diff')
+        shutil.copy(f'{src}/demo.rs', f'{dst}/demo.rs')
     meta = {}
     try:
         meta = json.load(open(f'{src}/meta.json'))
@@ -82,7 +83,7 @@ def main():
     json.dump(meta, open(f'{dst}/meta.json', 'w'), indent=1)
     print(json.dumps(dict(name=name, confirmed=res.get('confirmed'), checks={k: (v['exit'], v['lines']) for k, v in res['checks'].items()}), indent=1))
     # restore the replay crate to /repo
-    sh('./vx setup', cwd=VERIF)
+    pass
 
 
 if __name__ == '__main__':
